@@ -286,3 +286,5 @@ _quick("C16", "C16_staletmp", "as C16_stale for the one crash image that can be 
 _quick("C07", "C07_shared", "two holders of a key of capacity 5, each with its own persistence timing (default / persist-immediately / never-persist), 0 or 2 s later the queue drains and the instance restarts at once: per holder, restored exactly if its own flags say it counts as persisted", ["-witness", "2"])
 
 _quick("C18", "C18_anon", "a binary connection that never sent INIT leaves a queued request and closes; another connection announces ANY client id (16 symbolic bytes); the later grant must be dropped, not delivered to it; client table empty after close", ["-witness", "1"])
+
+_quick("C18", "C18_reconnect2", "connection 1 (client id X) leaves two queued requests and closes; connection 2 announces X and receives the first grant; connection 2 closes or stays; connection 3 announces X or not; the second grant reaches the connection that now speaks for X (exactly one of two live ones), else is dropped", ["-witness", "4"], reach=["end", "third", "dropped"])
